@@ -33,11 +33,15 @@ Definition vmem (p : vox) (l : list vox) : bool := existsb (vox_eqb p) l.
 Definition vinter (a b : list vox) : list vox := filter (fun p => vmem p b) a.
 Definition vdiff (a b : list vox) : list vox := filter (fun p => negb (vmem p b)) a.
 Definition vunion (a b : list vox) : list vox := a ++ vdiff b a.
+(* juxtaposition: a cell covered by two of the juxtaposed solids is NOT a cell of the result (symmetric difference), so
+   Compose is the union only where the code's disjointness assumption holds *)
+Definition vxor (a b : list vox) : list vox := vdiff a b ++ vdiff b a.
 
 Definition VoxOps : CsgOps :=
   mkCsgOps (list vox) (list gen)
            (fun a b => forall p, In p a <-> In p b)
-           vunion vinter vdiff [] (fun l => fold_right vunion [] l)
+           vunion vinter vdiff [] (fun l => fold_right vxor [] l)
+           (fun a b => forall p, In p a -> In p b -> False)
            [] (fun m n => m ++ n) (fun m => match m with [] => true | _ => false end)
            (fun m s => map (apply_tr m) s).
 
